@@ -324,10 +324,10 @@ theorem C09_service_gate_from_scenario (thr : ThrCfg) (c : NodesCfg) (hc : HostC
 
 theorem C09_application_gate_from_scenario (thr : ThrCfg) (c : NodesCfg) (hc : HostCfg) (o : HostObs) (hb : hc.build thr c = some o)
     (a : AppObs) (ha : a ∈ o.apps) (t : Truth) (h name : String) (n : NodeT) (sv : SoftwareT)
-    (hw : a.wh = some (h, name)) (hn : t.node h = some n) (hf : n.apps.find? (fun x => x.name = name) = some sv) :
+    (hw : a.wh = some (h, name)) (hn : t.node h = some n) (hf : n.apps.find? (fun x => x.name = name) = some sv) (ht : a.thr.Ok) :
     lookupK (.s "health_status") (match a.val (describe t) with | .dict kvs => kvs | _ => []) =
       some (.int (if effectiveScan hc.appScan c.appScan then sv.healthVisible else sv.healthActual)) := by
-  have := C09_scan_gating_application a t h name n sv hw hn hf
+  have := C09_scan_gating_application a t h name n sv hw hn hf ht
   rw [(C09_built_host_gates thr c hc o hb).2.1 a ha] at this
   exact this
 
@@ -421,5 +421,30 @@ example : exTruth.NamesDistinct := by
   simp only [List.mem_singleton] at hf
   subst hf
   decide
+
+/-! ### the documentation's band tables (regenerated from the demonstration notebook) and the specification bands -/
+
+/-- the tables the specification bands were written from, as the notebook words them today -/
+theorem C09_gen_doc_tables :
+    ObsCfgTables.docExecutionsTable = [("0", "0"), ("1", "1-5"), ("2", "6-10"), ("3", ">10")] ∧
+    ObsCfgTables.docAccessTable = ObsCfgTables.docExecutionsTable ∧
+    ObsCfgTables.docLinkTable =
+      [("0", "exactly 0%"), ("1", "0-11%"), ("2", "11-22%"), ("3", "22-33%"), ("4", "33-44%"), ("5", "44-55%"), ("6", "55-66%"),
+       ("7", "66-77%"), ("8", "77-88%"), ("9", "88-99%"), ("10", "exactly 100%")] ∧
+    ObsCfgTables.docNicTrafficTable = ObsCfgTables.docLinkTable := by
+  decide
+
+/-- the counted-occurrences table, row by row, for the default thresholds: 0 ↦ 0, 1-5 ↦ 1, 6-10 ↦ 2, >10 ↦ 3 -/
+theorem C09_specBand_rows (n : Int) :
+    (n ≤ 0 → specBand {} n = 0) ∧ (1 ≤ n ∧ n ≤ 5 → specBand {} n = 1) ∧ (6 ≤ n ∧ n ≤ 10 → specBand {} n = 2) ∧ (10 < n → specBand {} n = 3) := by
+  rw [C09_band_eq_code {} thrDefault_ok, C09_band_default_table]
+  refine ⟨?_, ?_, ?_, ?_⟩ <;> intro h <;> (repeat' split) <;> omega
+
+/-- the utilisation table, row by row, on a capacity of 900 units (one ninth = 100): 0 ↦ 0, [0,100) ↦ 1, [100,200) ↦ 2, …, [800,900) ↦ 9,
+900 and above ↦ 10 -/
+theorem C09_specUtil_rows :
+    specUtil 0 900 = .int 0 ∧ specUtil 1 900 = .int 1 ∧ specUtil 99 900 = .int 1 ∧ specUtil 100 900 = .int 2 ∧ specUtil 450 900 = .int 5 ∧
+    specUtil 799 900 = .int 8 ∧ specUtil 800 900 = .int 9 ∧ specUtil 899 900 = .int 9 ∧ specUtil 900 900 = .int 10 ∧ specUtil 5000 900 = .int 10 := by
+  refine ⟨?_, ?_, ?_, ?_, ?_, ?_, ?_, ?_, ?_, ?_⟩ <;> rfl
 
 end Primaite.Obs
